@@ -249,6 +249,11 @@ impl WorkerDriver {
     pub fn total(&self) -> usize {
         self.fut.counter.total()
     }
+
+    /// raw value of the shared atomic counter (biased by one; `total()` = raw - 1)
+    pub fn counter_raw(&self) -> usize {
+        self.fut.counter.inner.1.counter.load(std::sync::atomic::Ordering::SeqCst)
+    }
 }
 
 // ------------------------------------------------------------------------------------------------
